@@ -79,6 +79,18 @@ TABLE = {
         note="Trusted: the 10-line bracket matcher and the reference tokenizer used to split corpus files.",
         ref="DESIGN.md section 4, C18",
     ),
+    "C12": dict(
+        technique="Hypothesis RuleBasedStateMachine over one long-lived CParser / CGenerator pair / CLexer, differential oracle against fresh instances after every call, id-disjointness of returned ASTs",
+        text="Histories of 20-40 calls (valid generated programs, programs truncated at arbitrary tokens incl. right after a #pragma token, a pool of clashing programs, token soup, repeated texts, code generation from any earlier AST, re-use of a bare lexer) are run on reused instances; every outcome (AST with coordinates or exception type and message, generated text, token stream) must equal a fresh instance's and ASTs must share no objects. Statistical over histories; shrinking works on the rule sequence.",
+        note="Trusted: a fresh instance as the reference behaviour; astdump.dump with coordinates.",
+        ref="DESIGN.md section 4, C12",
+    ),
+    "C13": dict(
+        technique="schedule-owning harness: a lexer subclass injected through lexer= (and yielding CGenerator / NodeVisitor subclasses) parks each thread at every token()/visit() so that interleavings are values; exhaustive interleavings of short clashing program pairs, Hypothesis-generated schedules for 2-4 longer programs, free-running threads with minimal switch interval; oracle = results of the same calls run alone",
+        text="All interleavings at token granularity of 5 (quick) / 7 (thorough) clashing program pairs are enumerated; Hypothesis draws schedules for 2-4 parsers, generators and visitor subclasses on pool and generated programs; 4 and 8 free-running threads repeat parse+generate loops. Every result must equal the solo result. Complete for the enumerated pairs, statistical beyond; races inside a single method are only reachable by the free-running part.",
+        note="Trusted: the controller (a stall of 6 s is reported as a difference, never ignored); solo runs as reference.",
+        ref="DESIGN.md section 4, C13",
+    ),
 }
 
 NOT_YET = "check not built yet in this session (work in progress; see DESIGN.md section 9 for the order of work)"
